@@ -129,13 +129,18 @@ def to_jst(types, uses, spec_keys=None):
         elif k == "req":
             out += ["    Request", block(t, 8)]
         elif k == "resph":
-            if i % 3 != 0:
+            # the response that carries the schema is the last, the FIRST or the only response of its method
+            if i % 3 == 1:
                 out += ["    204 any", "    404", "        Body empty"]
             out += ["    200", "        Headers", block(t, 12), "        Body any"]
+            if i % 3 == 0:
+                out += ["    204 any", "    404", "        Body empty"]
         elif k == "resp":
-            if i % 3 != 0:
+            if i % 3 == 1:
                 out += ["    204 any", "    401 regex", "        /a/", "    404", "        Headers", "            {}", "        Body empty"]
             out += ["    200", block(t, 8)]
+            if i % 3 == 0:
+                out += ["    204 any", "    401 regex", "        /a/", "    404", "        Headers", "            {}", "        Body empty"]
         out.append("")
     return "\n".join(out)
 
